@@ -497,7 +497,7 @@ func TestPropExhaustive(t *testing.T) {
 	registerAll()
 	keys := []string{"a", "b", "c"}
 	alpha := opAlphabet(keys)
-	maxLen := ev.N(3, 4)
+	maxLen := ev.N(3, 5)
 	for _, cont := range []string{"rule", "ast", "cons"} {
 		name := "exhaustive-" + cont
 		ev.KeepFirst(name)
